@@ -283,7 +283,12 @@ WHOLE = (" WHOLE TOOL: Model/Pipeline.lean composes root adjustment, discovery, 
          "TEXT and every stub file byte for byte. ")
 WHOLE_THM = {
     "C01": "Theorems/C01b: tool_error_sources (an error of the run comes from discovery, walk, serialisation or generator - "
-           "never from the alias collection, which is total after repair c9b80ef), discovery_error_is_no_files, alias_step_total.",
+           "never from the alias collection, which is total after repair c9b80ef), discovery_error_is_no_files, alias_step_total. "
+           "Theorems/C01a (analyser half, Proofs/StackDiscipline through every function of the visitor): enter_pushes_one_frame, "
+           "leave_pops_its_frame, create_attribute_guard, walk_balanced, analysis_never_asserts, analysis_leaves_empty_stack, "
+           "get_api_never_asserts - for EVERY list of modules with definitions nested to any depth, none of the visitor's stack "
+           "guards (assert / 'unexpected parent' AssertionError, eight sites of T3) can fire, and a completed walk leaves the "
+           "declaration stack as it found it.",
     "C08": "Theorems/C08b: tool_enumeration_order (runTool is invariant under every permutation of the directory listing - end to "
            "end, incl. API text and write log), alias_table_spec / alias_table_order_independent (the alias table as a dict of "
            "sets does not depend on the order of build_result.types).",
